@@ -350,8 +350,10 @@ LAW(L05_moments, RC, 48000, 1440000, 220, "length <= 2, a constant vector, ties,
     return kind == 0 ? genDyadic(c, k, 64) : kind == 1 ? genReals(c, k, -100, 100) : vector<double>(k, c.ival(5)); };
   vector<double> x = tight(gen(n)), y = two ? tight(gen(m)) : x; auto w = genWeights(c, wl);
   bool unbiased = c.flag(), norm = !c.oneIn(3);
+  bool viaDefaults = c.flag() && unbiased && norm;   // rely on the documented defaults (unbiased = true, normalizeWeights = true)
   c.desc << NM[f] << " x=" << shv(x); if (two) c.desc << " y=" << shv(y); if (weighted) c.desc << " w=" << shv(w) << " normalize=" << norm;
   if (f != 3 && f != 7) c.desc << " unbiased=" << unbiased;
+  if (viaDefaults) c.desc << " (trailing arguments left to their defaults)";
   bool zeroW = false; LD sw = 0; for (double v : w) { if (v == 0) zeroW = true; sw += v; }
   c.nt(n <= 2 || hasTies(x) || zeroW || n != m || (weighted && wl != n));
   if (weighted && !norm && sw > 0) for (auto& v : w) v = static_cast<double>(v / sw);
@@ -359,7 +361,17 @@ LAW(L05_moments, RC, 48000, 1440000, 220, "length <= 2, a constant vector, ties,
   bool anyBad = n != m || (weighted && wl != n);
   double g = 0;
   bool t = threw<DimensionException>([&] {
-    switch (f) {
+    if (viaDefaults) switch (f) {
+      case 0: g = VT::var<double, double>(x); break;
+      case 1: g = VT::sd<double, double>(x); break;
+      case 2: g = VT::cov<double, double>(x, y); break;
+      case 3: g = VT::cor<double, double>(x, y); break;
+      case 4: g = VT::var<double, double>(x, w); break;
+      case 5: g = VT::sd<double, double>(x, w); break;
+      case 6: g = VT::cov<double, double>(x, y, w); break;
+      default: g = VT::cor<double, double>(x, y, w);
+    }
+    else switch (f) {
       case 0: g = VT::var<double, double>(x, unbiased); break;
       case 1: g = VT::sd<double, double>(x, unbiased); break;
       case 2: g = VT::cov<double, double>(x, y, unbiased); break;
